@@ -37,6 +37,7 @@ Inductive ccase :=
 | CNorm (a : hw) (r : res hw) (isn : bool) (r2 : res hw)   (* a.normalized(), a.is_normalized(), a.normalized().normalized() *)
 | CSat (c r : hw) (b : res bool)                    (* c.satisfies(r) *)
 | CAddSub (a b : hw) (s : res hw) (r : res hw)      (* s = a + b ; r = s - b *)
+| CSubAdd (a b : hw) (d : res hw) (r : res hw)      (* d = a - b ; r = d + b *)
 | CNew (c m : Z) (s : smap) (r : hw).               (* Hardware(c, m, s) *)
 
 Definition check_case (c : ccase) : bool :=
@@ -50,5 +51,7 @@ Definition check_case (c : ccase) : bool :=
   | CSat c r b => res_eqb Bool.eqb (satisfies c r) b
   | CAddSub a b s r =>
       res_eqb hw_eqb (hw_add a b) s && res_eqb hw_eqb (s' <- hw_add a b ;; hw_sub s' b) r
+  | CSubAdd a b d r =>
+      res_eqb hw_eqb (hw_sub a b) d && res_eqb hw_eqb (d' <- hw_sub a b ;; hw_add d' b) r
   | CNew c m s r => hw_eqb (new_hw c m s) r
   end.
